@@ -211,9 +211,14 @@ class Sym:
         return self._bin(o, lambda a, b: a - b, True)
 
     def __mul__(self, o):
+        if self.is_bool and isinstance(o, Sym) and o.is_bool:
+            # NumPy: bool * bool is the logical and (kept propositional instead of a product of 0/1 integers)
+            return mk(z3.And(self.e, o.e))
         return self._bin(o, lambda a, b: a * b)
 
     def __rmul__(self, o):
+        if self.is_bool and isinstance(o, Sym) and o.is_bool:
+            return mk(z3.And(o.e, self.e))
         return self._bin(o, lambda a, b: a * b, True)
 
     def __truediv__(self, o):
